@@ -40,7 +40,8 @@ def main():
         for i, r in enumerate(reps, 1):
             c = r["case"]
             n = occ.get(r["fingerprint"], r.get("occurrences", 1))
-            print(f'| {i} | `{r["fingerprint"]}` | {n} | {c["entry"]}; {c["mutation"]}; {c["input_len"]} B | {r["message"][:200].replace("|", "/")} |')
+            msg = " ".join(r["message"][:220].replace("|", "/").split())
+            print(f'| {i} | `` {r["fingerprint"]} `` | {n} | {c["entry"]}; {c["mutation"]}; {c["input_len"]} B | {msg} |')
         return
     entries = [{"property": "C08", "fingerprint": r["fingerprint"], "what": what(r), "status": "known"} for r in reps]
     if "--merge-known" in sys.argv:
